@@ -136,8 +136,8 @@ RE(st, out, e) == [st |-> st, out |-> out, amb |-> FALSE, kf |-> {}, err |-> e]
 CountIf(s, T(_)) == Len(SelectSeq(s, T))
 (* FoldLeft with a state and concatenated outputs.                          *)
 FoldPts(F(_, _), st0, s) ==
-    FoldLeft(LAMBDA a, x : LET r == F(a.st, x) IN [st |-> r.st, out |-> a.out \o r.out],
-             [st |-> st0, out |-> <<>>], s)
+    FoldLeft(LAMBDA a, x : LET r == F(a.st, x) IN [st |-> r.st, out |-> a.out \o r.out, err |-> a.err + r.err],
+             [st |-> st0, out |-> <<>>, err |-> 0], s)
 
 (***************************************************************************)
 (* Part 2: the node operators                                               *)
@@ -251,61 +251,60 @@ SampleOp(n, st, m) ==
 NoPrev == [has |-> FALSE, f |-> 0, t |-> 0]
 DerivPt(n, prev, q) ==
     LET cur == GetOr(q.fields, n.field, MissingV) IN
-    IF ~IsNum(cur) THEN [st |-> prev, out |-> <<>>]
+    IF ~IsNum(cur) THEN [st |-> prev, out |-> <<>>, err |-> 1]            \* "field is the wrong type"
     ELSE LET f1 == Scaled(cur)
              new == [has |-> TRUE, f |-> f1, t |-> q.t]
-         IN IF ~prev.has THEN [st |-> new, out |-> <<>>]
-            ELSE IF q.t = prev.t THEN [st |-> new, out |-> <<>>]
-            ELSE IF n.nonNeg /\ f1 < prev.f THEN [st |-> new, out |-> <<>>]
-            ELSE [st |-> new,
+         IN IF ~prev.has THEN [st |-> new, out |-> <<>>, err |-> 0]
+            ELSE IF q.t = prev.t THEN [st |-> new, out |-> <<>>, err |-> 1]   \* "elapsed time was 0"
+            ELSE IF n.nonNeg /\ f1 < prev.f THEN [st |-> new, out |-> <<>>, err |-> 0]
+            ELSE [st |-> new, err |-> 0,
                   out |-> <<[q EXCEPT !.fields = Put(q.fields, n.as, FloatV(ExactDiv((f1 - prev.f) * n.unit, q.t - prev.t)))]>>]
 DerivativeOp(n, st, m) ==
     IF m.mk = "p"
-    THEN LET r == DerivPt(n, GetOr(st, m.group, NoPrev), m) IN R(Put(st, m.group, r.st), r.out)
-    ELSE LET r == FoldPts(LAMBDA s, q : DerivPt(n, s, q), NoPrev, m.pts) IN R(st, <<[m EXCEPT !.pts = r.out]>>)
+    THEN LET r == DerivPt(n, GetOr(st, m.group, NoPrev), m) IN RE(Put(st, m.group, r.st), r.out, r.err)
+    ELSE LET r == FoldPts(LAMBDA s, q : DerivPt(n, s, q), NoPrev, m.pts) IN RE(st, <<[m EXCEPT !.pts = r.out]>>, r.err)
 
 (* ---- changeDetect: emit a point when a listed field it carries differs   *)
 (* from that field of the last emitted point of the group (typed            *)
 (* comparison; the first point always differs); per batch for batches.      *)
 ChangePt(n, prev, q) ==
-    IF \E i \in DOMAIN n.fields :
-          n.fields[i] \in DOMAIN q.fields /\ GetOr(prev, n.fields[i], NoneV) # q.fields[n.fields[i]]
-    THEN [st |-> q.fields, out |-> <<q>>]
-    ELSE [st |-> prev, out |-> <<>>]
+    LET Diff(i) == n.fields[i] \in DOMAIN q.fields /\ GetOr(prev, n.fields[i], NoneV) # q.fields[n.fields[i]]
+        ds == {i \in DOMAIN n.fields : Diff(i)}
+        first == IF ds = {} THEN Len(n.fields) + 1 ELSE CHOOSE i \in ds : \A j \in ds : i <= j
+        \* the fields are looked at in order up to the first change; a listed field the point lacks is reported
+        e == Cardinality({i \in DOMAIN n.fields : i < first /\ n.fields[i] \notin DOMAIN q.fields})
+    IN IF ds # {} THEN [st |-> q.fields, out |-> <<q>>, err |-> e]
+       ELSE [st |-> prev, out |-> <<>>, err |-> e]
 ChangeDetectOp(n, st, m) ==
     IF m.mk = "p"
-    THEN LET r == ChangePt(n, GetOr(st, m.group, <<>>), m) IN R(Put(st, m.group, r.st), r.out)
-    ELSE LET r == FoldPts(LAMBDA s, q : ChangePt(n, s, q), <<>>, m.pts) IN R(st, <<[m EXCEPT !.pts = r.out]>>)
+    THEN LET r == ChangePt(n, GetOr(st, m.group, <<>>), m) IN RE(Put(st, m.group, r.st), r.out, r.err)
+    ELSE LET r == FoldPts(LAMBDA s, q : ChangePt(n, s, q), <<>>, m.pts) IN RE(st, <<[m EXCEPT !.pts = r.out]>>, r.err)
 
 (* ---- stateCount / stateDuration: consecutive points of the group for     *)
 (* which the predicate holds; -1 when it does not; an evaluation error      *)
 (* drops the point and leaves the state alone; reset per batch.             *)
 CountPt(n, c, q) ==
     LET p == Pred(n.lam, q.tags, q.fields) IN
-    IF p = "E" THEN [st |-> c, out |-> <<>>]
-    ELSE IF p = "F" THEN [st |-> 0, out |-> <<[q EXCEPT !.fields = Put(q.fields, n.as, IntV(-1))]>>]
-    ELSE [st |-> c + 1, out |-> <<[q EXCEPT !.fields = Put(q.fields, n.as, IntV(c + 1))]>>]
+    IF p = "E" THEN [st |-> c, out |-> <<>>, err |-> 1]
+    ELSE IF p = "F" THEN [st |-> 0, err |-> 0, out |-> <<[q EXCEPT !.fields = Put(q.fields, n.as, IntV(-1))]>>]
+    ELSE [st |-> c + 1, err |-> 0, out |-> <<[q EXCEPT !.fields = Put(q.fields, n.as, IntV(c + 1))]>>]
 StateCountOp(n, st, m) ==
     IF m.mk = "p"
-    THEN LET r == CountPt(n, GetOr(st, m.group, 0), m)
-         IN RE(Put(st, m.group, r.st), r.out, IF Pred(n.lam, m.tags, m.fields) = "E" THEN 1 ELSE 0)
-    ELSE LET r == FoldPts(LAMBDA s, q : CountPt(n, s, q), 0, m.pts)
-         IN RE(st, <<[m EXCEPT !.pts = r.out]>>, CountIf(m.pts, LAMBDA q : Pred(n.lam, q.tags, q.fields) = "E"))
+    THEN LET r == CountPt(n, GetOr(st, m.group, 0), m) IN RE(Put(st, m.group, r.st), r.out, r.err)
+    ELSE LET r == FoldPts(LAMBDA s, q : CountPt(n, s, q), 0, m.pts) IN RE(st, <<[m EXCEPT !.pts = r.out]>>, r.err)
 
 NoStart == [has |-> FALSE, t |-> 0]
 DurPt(n, s, q) ==
     LET p == Pred(n.lam, q.tags, q.fields) IN
-    IF p = "E" THEN [st |-> s, out |-> <<>>]
-    ELSE IF p = "F" THEN [st |-> NoStart, out |-> <<[q EXCEPT !.fields = Put(q.fields, n.as, FloatV(-Scale))]>>]
+    IF p = "E" THEN [st |-> s, out |-> <<>>, err |-> 1]
+    ELSE IF p = "F" THEN [st |-> NoStart, err |-> 0, out |-> <<[q EXCEPT !.fields = Put(q.fields, n.as, FloatV(-Scale))]>>]
     ELSE LET start == IF s.has THEN s.t ELSE q.t
-         IN [st |-> [has |-> TRUE, t |-> start],
+         IN [st |-> [has |-> TRUE, t |-> start], err |-> 0,
              out |-> <<[q EXCEPT !.fields = Put(q.fields, n.as, FloatV(ExactDiv((q.t - start) * Scale, n.unit)))]>>]
 StateDurationOp(n, st, m) ==
     IF m.mk = "p"
-    THEN LET r == DurPt(n, GetOr(st, m.group, NoStart), m)
-         IN RE(Put(st, m.group, r.st), r.out, IF Pred(n.lam, m.tags, m.fields) = "E" THEN 1 ELSE 0)
-    ELSE LET r == FoldPts(LAMBDA s, q : DurPt(n, s, q), NoStart, m.pts)
-         IN RE(st, <<[m EXCEPT !.pts = r.out]>>, CountIf(m.pts, LAMBDA q : Pred(n.lam, q.tags, q.fields) = "E"))
+    THEN LET r == DurPt(n, GetOr(st, m.group, NoStart), m) IN RE(Put(st, m.group, r.st), r.out, r.err)
+    ELSE LET r == FoldPts(LAMBDA s, q : DurPt(n, s, q), NoStart, m.pts) IN RE(st, <<[m EXCEPT !.pts = r.out]>>, r.err)
 
 (* ---- flatten: the points of a group with the same (rounded) time become  *)
 (* one point whose fields are named <tag values joined>.<field>; a point    *)
@@ -318,13 +317,13 @@ JoinVals(tags, on, delim, i) ==
     ELSE (IF i > 1 THEN delim ELSE "") \o tags[on[i]] \o JoinVals(tags, on, delim, i + 1)
 FlatFields(n, pts) ==
     FoldLeft(LAMBDA a, q :
-        IF \E d \in SeqSet(n.on) : d \notin DOMAIN q.tags THEN a
+        IF \E d \in SeqSet(n.on) : d \notin DOMAIN q.tags THEN [a EXCEPT !.err = @ + 1]
         ELSE LET prefix == JoinVals(q.tags, n.on, n.delim, 1)
                  Key(fn) == IF n.drop THEN prefix ELSE IF prefix = "" THEN fn ELSE prefix \o n.delim \o fn
                  new == [k \in {Key(fn) : fn \in DOMAIN q.fields} |->
                             q.fields[CHOOSE fn \in DOMAIN q.fields : Key(fn) = k]]
-             IN [f |-> Over(a.f, new), amb |-> a.amb \/ (n.drop /\ Cardinality(DOMAIN q.fields) > 1)],
-        [f |-> <<>>, amb |-> FALSE], pts)
+             IN [f |-> Over(a.f, new), amb |-> a.amb \/ (n.drop /\ Cardinality(DOMAIN q.fields) > 1), err |-> a.err],
+        [f |-> <<>>, amb |-> FALSE, err |-> 0], pts)
 
 FlattenOp(n, st, m) ==
     IF m.mk = "p"
@@ -336,20 +335,21 @@ FlattenOp(n, st, m) ==
          IN IF t = b.time THEN R(Put(st, g, [b EXCEPT !.pts = Append(@, q)]), <<>>)
             ELSE IF Len(b.pts) = 0 THEN R(Put(st, g, [b EXCEPT !.time = t, !.pts = <<q>>]), <<>>)
             ELSE LET ff == FlatFields(n, b.pts) IN
-                 IF DOMAIN ff.f = {} THEN R(Put(st, g, [b EXCEPT !.time = t, !.pts = <<q>>]), <<>>)
+                 IF DOMAIN ff.f = {} THEN RE(Put(st, g, [b EXCEPT !.time = t, !.pts = <<q>>]), <<>>, ff.err)
                  ELSE [R(Put(st, g, [b EXCEPT !.time = IF b.time > t THEN b.time ELSE t, !.pts = <<q>>]),
-                         <<MkPoint(b.name, b.gtags, ff.f, b.time, b.dims, b.byName)>>) EXCEPT !.amb = ff.amb]
+                         <<MkPoint(b.name, b.gtags, ff.f, b.time, b.dims, b.byName)>>) EXCEPT !.amb = ff.amb, !.err = ff.err]
     ELSE LET step(s, q0) ==
                  LET t == RoundT(q0.t, n.tol)  q == BP(q0.tags, q0.fields, t) IN
                  IF t = s.time THEN [s EXCEPT !.pts = Append(@, q)]
                  ELSE IF Len(s.pts) = 0 THEN [s EXCEPT !.time = t, !.pts = <<q>>]
                  ELSE LET ff == FlatFields(n, s.pts)
-                      IN [time |-> t, pts |-> <<q>>, amb |-> s.amb \/ ff.amb,
+                      IN [time |-> t, pts |-> <<q>>, amb |-> s.amb \/ ff.amb, err |-> s.err + ff.err,
                           out |-> IF DOMAIN ff.f = {} THEN s.out ELSE Append(s.out, BP(m.tags, ff.f, s.time))]
-             z == FoldLeft(step, [time |-> None, pts |-> <<>>, out |-> <<>>, amb |-> FALSE], m.pts)
+             z == FoldLeft(step, [time |-> None, pts |-> <<>>, out |-> <<>>, amb |-> FALSE, err |-> 0], m.pts)
              fin == FlatFields(n, z.pts)
              out == IF Len(z.pts) > 0 THEN Append(z.out, BP(m.tags, fin.f, z.time)) ELSE z.out
-         IN [R(st, <<[m EXCEPT !.pts = out]>>) EXCEPT !.amb = z.amb \/ (Len(z.pts) > 0 /\ fin.amb)]
+         IN [R(st, <<[m EXCEPT !.pts = out]>>) EXCEPT !.amb = z.amb \/ (Len(z.pts) > 0 /\ fin.amb),
+                                                      !.err = z.err + (IF Len(z.pts) > 0 THEN fin.err ELSE 0)]
 
 (* ---- combine: the points of a group with the same (rounded) time are     *)
 (* combined: for every k-subset (k = number of expressions, in index        *)
@@ -370,9 +370,11 @@ Pick(mt, idx, s, k) ==       \* 0 marks "no point for expression s"
          ELSE <<cand[1]>> \o Pick(mt, SelectSeq(idx, LAMBDA i : i # cand[1]), s + 1, k)
 CombineAll(n, b, pts) ==
     LET k == Len(n.lams)  N == Len(pts) IN
-    IF N = 0 \/ N < k THEN <<>>
+    LET predErrs == Cardinality({<<s, i>> \in (1..k) \X (1..N) : Pred(n.lams[s], pts[i].tags, pts[i].fields) = "E"}) IN
+    IF N = 0 THEN [out |-> <<>>, err |-> 0]
+    ELSE IF N < k THEN [out |-> <<>>, err |-> predErrs]
     ELSE LET cs == Combs(1, N, k) IN
-         IF Len(cs) > n.max THEN <<>>       \* "an error is logged and the combinations are not calculated"
+         IF Len(cs) > n.max THEN [out |-> <<>>, err |-> 1]  \* "an error is logged and the combinations are not calculated"
          ELSE LET mt == [s \in 1..k |-> [i \in 1..N |-> Pass(n.lams[s], pts[i])]]
                   dimset == SeqSet(b.dims)
                   One(c) ==
@@ -388,7 +390,7 @@ CombineAll(n, b, pts) ==
                                         IN Over(a, [x \in {TK(s, y) : y \in DOMAIN tg} |-> tg[CHOOSE y \in DOMAIN tg : TK(s, y) = x]]),
                                         <<>>, [s \in 1..k |-> s])
                            IN <<MkPoint(b.name, ts, fs, pts[pk[1]].t, b.dims, b.byName)>>
-              IN FlattenSeq([i \in DOMAIN cs |-> One(cs[i])])
+              IN [out |-> FlattenSeq([i \in DOMAIN cs |-> One(cs[i])]), err |-> predErrs]
 
 CombineOp(n, st, m) ==
     IF m.mk = "p"
@@ -398,14 +400,17 @@ CombineOp(n, st, m) ==
                   ELSE [time |-> None, name |-> m.name, dims |-> m.dims, byName |-> m.byName, pts |-> <<>>]
              q == BP(m.tags, m.fields, t)
          IN IF t = b.time THEN R(Put(st, g, [b EXCEPT !.pts = Append(@, q)]), <<>>)
-            ELSE R(Put(st, g, [b EXCEPT !.time = t, !.pts = <<q>>]), CombineAll(n, b, b.pts))
+            ELSE LET c == CombineAll(n, b, b.pts)
+                 IN RE(Put(st, g, [b EXCEPT !.time = t, !.pts = <<q>>]), c.out, c.err)
     ELSE LET b == [name |-> m.name, dims |-> m.dims, byName |-> m.byName]
              step(s, q0) ==
                  LET t == RoundT(q0.t, n.tol)  q == BP(q0.tags, q0.fields, t) IN
                  IF t = s.time THEN [s EXCEPT !.pts = Append(@, q)]
-                 ELSE [time |-> t, pts |-> <<q>>, out |-> s.out \o CombineAll(n, b, s.pts)]
-             z == FoldLeft(step, [time |-> None, pts |-> <<>>, out |-> <<>>], m.pts)
-         IN R(st, z.out \o CombineAll(n, b, z.pts))
+                 ELSE LET c == CombineAll(n, b, s.pts)
+                      IN [time |-> t, pts |-> <<q>>, out |-> s.out \o c.out, err |-> s.err + c.err]
+             z == FoldLeft(step, [time |-> None, pts |-> <<>>, out |-> <<>>, err |-> 0], m.pts)
+             fin == CombineAll(n, b, z.pts)
+         IN RE(st, z.out \o fin.out, z.err + fin.err)
 
 (* ---- groupBy: the dimensions become the listed tags, or with * all tags  *)
 (* of the point minus the excluded ones; byMeasurement() adds the name.     *)
